@@ -37,7 +37,7 @@ func TestC17(t *testing.T) {
 	harness.Check(t, "C17",
 		"generated world + history of 6-22 blocks with sends, node/app stake, edit-stake, unstake to maturity, app transfer, param changes, DAO transfer/burn, missed "+
 			"signatures (downtime slash + jail, force unstake) from a genesis whose supply matches its balances; after every Commit: stored supply == sum of the balances of every "+
-			"account in the auth store; supply never increases (no relay proofs in these histories) and decreases only in a block with a successful DAO burn or a slash; a DAO burn "+
+			"account in the auth store; in a third of the blocks a relay reward is minted the way the proof handler does it; the supply increases only in such a block and (without a reward in the block) decreases only in a block with a successful DAO burn or a slash; a DAO burn "+
 			"without slash in the block decreases it by exactly the burned amounts. non-trivial = history containing a supply decrease (burn or slash) and at least one stake/unstake",
 		map[string]float64{"supply-decreased": 0.3, "dao-burn-ok": 0.15, "slash-or-jail": 0.1},
 		func(rt *rapid.T, c *harness.Case) {
@@ -88,7 +88,27 @@ func TestC17(t *testing.T) {
 			snap()
 			decreased, staked := false, false
 			for i, b := range h.Blocks {
-				r := n.RunBlock(b)
+				// in a third of the blocks a relay reward is minted the way the proof handler does it (servicer = a staked node,
+				// 1 to 100000 relays): the only event that may make the supply grow
+				rewarded := false
+				var r chain.BlockResult
+				if vals := nk.GetAllValidators(n.Ctx()); len(vals) > 0 && rapid.SampledFrom([]int{0, 0, 1}).Draw(rt, "relayReward") == 1 {
+					v := vals[rapid.IntRange(0, len(vals)-1).Draw(rt, "rewardedNode")]
+					relays := int64(rapid.SampledFrom([]int{1, 7, 100, 12345, 100000}).Draw(rt, "rewardedRelays"))
+					n.BeginBlock(b)
+					if v.IsStaked() && len(v.Chains) > 0 {
+						nk.RewardForRelaysPerChain(n.Ctx(), v.Chains[0], sdk.NewInt(relays), v.Address)
+						rewarded = true
+						c.Label("relay-reward-minted")
+						c.Opf("relay reward: %d relays on %s for %s", relays, v.Chains[0], v.Address.String()[:8])
+					}
+					for _, tx := range b.Txs {
+						n.DeliverTx(tx)
+					}
+					r = n.Commit(n.EndBlock())
+				} else {
+					r = n.RunBlock(b)
+				}
 				c.Opf("%s", chain.DescribeBlock(b, h.Txs[i]))
 				burned := sdk.ZeroInt()
 				for j, tx := range r.Txs {
@@ -130,19 +150,19 @@ func TestC17(t *testing.T) {
 				}
 				cur := check(fmt.Sprintf("after block %d (height %d)", i, r.Height))
 				delta := cur.Sub(prev)
-				if delta.IsPositive() {
+				if delta.IsPositive() && !rewarded {
 					c.Violation("C17/supply-increased-without-relay-reward", "height %d: supply grew by %s in a block without any relay proof: %s", r.Height, delta, chain.DescribeBlock(b, h.Txs[i]))
 				}
 				if delta.IsNegative() {
 					decreased = true
 					c.Label("supply-decreased")
-					if !slashed && !delta.Neg().Equal(burned) {
+					if !slashed && !rewarded && !delta.Neg().Equal(burned) {
 						c.Violation("C17/supply-decrease-not-explained-by-burns", "height %d: supply fell by %s, successful DAO burns in the block total %s, no slash happened: %s", r.Height, delta.Neg(), burned, chain.DescribeBlock(b, h.Txs[i]))
 					}
-					if slashed && delta.Neg().LT(burned) {
+					if slashed && !rewarded && delta.Neg().LT(burned) {
 						c.Violation("C17/supply-decrease-smaller-than-burns", "height %d: supply fell by %s but DAO burns alone total %s", r.Height, delta.Neg(), burned)
 					}
-				} else if !burned.IsZero() {
+				} else if !burned.IsZero() && !rewarded {
 					c.Violation("C17/dao-burn-did-not-reduce-supply", "height %d: successful DAO burns of %s but supply delta is %s", r.Height, burned, delta)
 				}
 				prev = cur
